@@ -11,6 +11,7 @@
 #include "corecel/Types.hh"
 #include "corecel/data/StackAllocator.hh"
 #include "corecel/math/ArrayOperators.hh"
+#include "corecel/math/Algorithms.hh"
 #include "corecel/math/ArrayUtils.hh"
 #include "celeritas/Quantities.hh"
 #include "celeritas/em/data/EPlusGGData.hh"
@@ -144,8 +145,10 @@ CELER_FUNCTION Interaction EPlusGGInteractor::operator()(Engine& rng)
             epsil - (2 * (tau + 1) * epsil - 1) / (epsil * ipow<2>(tau2)))(rng));
 
         // Scattered Gamma angles
-        real_type const cost = (epsil * tau2 - 1)
-                               / (epsil * std::sqrt(tau * tau2));
+        // (clamped: at the ends of the sampled epsilon range rounding can push
+        // the cosine slightly outside [-1, 1], giving a NaN direction)
+        real_type const cost = clamp<real_type>(
+            (epsil * tau2 - 1) / (epsil * std::sqrt(tau * tau2)), -1, 1);
         CELER_ASSERT(std::fabs(cost) <= 1);
 
         // Kinematic of the gamma pair
